@@ -76,6 +76,36 @@ def limb_boundaries(consts=None):
     return res
 
 
+def cmp_chain(c, widths=(26, 52, 32, 64), dense=False, bits=256):
+    """First-difference alphabet for a comparison against the constant c (p, n, (n-1)/2 ...): for a deciding bit position b the
+    value agrees with c above b, differs at b, and has the ADVERSARIAL lower part (all ones when the value is smaller than c, all
+    zeros when it is larger) - the inputs on which a comparison chain over ANY limb partition slips when one limb is left out or
+    compared the wrong way.  dense: every b in 0..bits-1; otherwise the lowest, the highest and a middle bit of every limb of every
+    listed limb width (26/52: field layouts, 32/64: scalar layouts).  Returns (smaller, larger_or_equal) lists of distinct ints."""
+    pos = set()
+    if dense:
+        pos = set(range(bits))
+    else:
+        for w in widths:
+            i = 0
+            while w * i < bits:
+                lo, hi = w * i, min(w * (i + 1), bits) - 1
+                pos.update((lo, hi, (lo + hi) // 2, min(lo + 1, hi)))
+                i += 1
+    smaller, larger = [], [c]
+    for b in sorted(pos):
+        top = c >> (b + 1) << (b + 1)
+        if (c >> b) & 1:
+            v = top | ((1 << b) - 1)
+            if v not in smaller:
+                smaller.append(v)
+        else:
+            v = top | (1 << b)
+            if v < (1 << bits) and v not in larger:
+                larger.append(v)
+    return smaller, larger
+
+
 def key_alphabet(n=N):
     return [v for v in sc_alphabet(n) if 1 <= v < n]
 
